@@ -12,10 +12,15 @@ ValidLayout(l) ==
     /\ l.br \in {"local", "bound", "ref"} /\ l.repo \in {"own", "shared", "none", "unused"}
     /\ (l.br = "ref") = (l.repo \in {"none", "unused"})
     /\ (l.br = "ref" => l.tree) /\ (l.repo = "shared" => l.above) /\ (l.dirty => l.tree)
-    /\ l.fmt \in Formats /\ (l.above = (l.sfmt \in Formats)) /\ (~l.above => l.sfmt = "none")
+    /\ l.km \in BOOLEAN /\ l.pure \in BOOLEAN /\ (l.br # "local" => l.km)
+    /\ l.fmt \in Formats /\ l.mfmt \in Formats /\ (l.above = (l.sfmt \in Formats)) /\ (~l.above => l.sfmt = "none")
 
 \* the repository a newly created local branch lives in: an existing own one, else the enclosing shared one, else a new own
 RepoForBranch(l) == IF l.br # "ref" THEN l.repo ELSE IF l.repo = "unused" THEN "own" ELSE IF l.above THEN "shared" ELSE "own"
+
+\* revisions of a 2a-level (rich-root) repository cannot be fetched into an older one: operations that have to move the
+\* location's own repository's revisions somewhere else are refused then (before anything is touched)
+Compat(src, dst) == ~(Rank(src) = 3 /\ Rank(dst) < 3)
 
 (* Plan(l, k) = [out, lay]: out = "ok" | "already" (Already* error: nothing to do) | "refused" (an error before anything
    is touched); lay = the layout afterwards. *)
@@ -24,21 +29,25 @@ Yes(l) == [out |-> "ok", lay |-> l]
 Plan(l, k) ==
     CASE k = "tree" ->
            IF l.tree /\ l.br = "local" THEN No(l, "already")
-           ELSE Yes([l EXCEPT !.tree = TRUE, !.br = "local", !.repo = RepoForBranch(l)])
+           ELSE Yes([l EXCEPT !.tree = TRUE, !.br = "local", !.repo = RepoForBranch(l), !.km = (l.br # "ref")])
       [] k = "branch" ->
            IF ~l.tree /\ l.br = "local" THEN No(l, "already")
            ELSE IF l.tree /\ l.dirty THEN No(l, "refused")                                   \* UncommittedChanges
-           ELSE Yes([l EXCEPT !.tree = FALSE, !.br = "local", !.repo = RepoForBranch(l), !.dirty = FALSE])
+           ELSE Yes([l EXCEPT !.tree = FALSE, !.br = "local", !.repo = RepoForBranch(l), !.dirty = FALSE, !.km = (l.br # "ref")])
       [] k = "checkout" ->
            IF l.tree /\ l.br = "bound" THEN No(l, "already")
+           ELSE IF ~l.km THEN No(l, "refused")                                               \* NoBindLocation
            ELSE Yes([l EXCEPT !.tree = TRUE, !.br = "bound", !.repo = RepoForBranch(l)])
       [] k = "lightweight-checkout" ->
            IF l.br = "ref" THEN No(l, "already")
+           ELSE IF ~l.km THEN No(l, "refused")                                               \* NoBindLocation
+           ELSE IF l.repo = "own" /\ ~Compat(l.fmt, l.mfmt) THEN No(l, "refused")           \* IncompatibleRepositories
            ELSE Yes([l EXCEPT !.tree = TRUE, !.br = "ref", !.repo = "none"])
       [] k = "use-shared" ->
            IF l.repo \in {"shared", "none"} THEN No(l, "already")
            ELSE IF l.repo = "unused" THEN Yes([l EXCEPT !.repo = "none"])
            ELSE IF ~l.above THEN No(l, "refused")                                            \* no shared repository to use
+           ELSE IF ~Compat(l.fmt, l.sfmt) THEN No(l, "refused")                              \* IncompatibleRepositories
            ELSE Yes([l EXCEPT !.repo = "shared"])
       [] k = "standalone" ->
            IF l.repo \in {"own", "unused"} THEN No(l, "already")
@@ -58,6 +67,10 @@ Plan(l, k) ==
 OwnRepo(l) == l.repo \in {"own", "unused"}
 OldComponent(l) ==      \* some component at the location is below the 2a level
     Rank(l.fmt) < 3 /\ (OwnRepo(l) \/ l.tree \/ (l.br # "ref" /\ l.fmt = "pack-0.92"))
+\* a reconfiguration that worked may have created components (tree, branch, repository) in the library's DEFAULT formats
+\* rather than the location's: the location is no longer `pure`, and what a later upgrade does there (convert, refuse or
+\* diverge) is left unspecified by this model - its effect on the content is still judged
+Impure(p) == IF p.out = "ok" THEN [out |-> "ok", lay |-> [p.lay EXCEPT !.pure = FALSE]] ELSE p
 PlanUpgrade(l, f) ==
     IF f = "pack-0.92" /\ l.fmt # "pack-0.92" THEN No(l, "refused")
     ELSE IF Rank(f) < Rank(l.fmt)
